@@ -26,7 +26,7 @@ REACH_PROBES = ['C_one_transformer_many_texts', 'A_literal', 'A_file', 'A_progra
                 'A_partial_lines', 'A_text_longer_than_buffer', 'A_text_fits_buffer',
                 'A_multibyte', 'A_cr', 'A_unicode_line_separators', 'A_no_final_newline', 'A_empty_text',
                 'A_family_line_based', 'A_family_cached', 'A_run_transformer', 'A_write_to_spooled', 'A_as_file',
-                'A_default_buffer', 'B_family', 'B_operand_after_transformation', 'B_transformed_operand_is_empty', 'B_equals_file_vs_file', 'B_equals_program', 'B_line_end_variant',
+                'A_default_buffer', 'B_family', 'B_expected_differs_in_one_character_same_size', 'B_operand_after_transformation', 'B_transformed_operand_is_empty', 'B_equals_file_vs_file', 'B_equals_program', 'B_line_end_variant',
                 'B_multibyte', 'spooled_rollover']
 
 SAFE = ['a', 'b', ' ', '\n', '\n', '.', '\t', 'c']
@@ -236,8 +236,13 @@ def plan_b(seed, tier, g):
     else:
         r = g.random()
         T_ = X if pre else T
+        same_size = [k for k, ch in enumerate(T_) if ch in SAFE and ch not in '\n\r']
         if r < 0.5:
             other = T_
+        elif r < 0.62 and same_size:
+            # a text of the same size (in bytes) that differs in one character
+            k = g.choice(same_size)
+            other = T_[:k] + ('q' if T_[k] != 'q' else 'z') + T_[k + 1:]
         elif r < 0.75:
             other = T_ + 'x'
         elif r < 0.9 and '\n' in T_:
@@ -560,6 +565,9 @@ def execute_b(plan, scratch):
         pr['B_line_end_variant'] = 1
     if any(c in T for c in MULTI):
         pr['B_multibyte'] = 1
+    if 'other' in m and m['other'] != T and len(m['other'].encode('utf-8', 'surrogateescape')) == len(
+            _apply_chain(pre, translate(T)).encode('utf-8', 'surrogateescape')):
+        pr['B_expected_differs_in_one_character_same_size'] = 1
     if pre:
         pr['B_operand_after_transformation'] = 1
         if _apply_chain(pre, translate(T)) == '':
